@@ -210,6 +210,73 @@ func scaleValues(c *Ctx, f *ssa.Function) (scale []ssa.Value, inv []ssa.Value) {
 			}
 		}
 	}
+	// a result of a helper the reference record does not know that is the helper's own scale on every return
+	// (`cfg, scale := resolveOptions(...)`) is a scale here
+	for _, b := range f.Blocks {
+		for _, in := range b.Instrs {
+			call, ok := in.(*ssa.Call)
+			if !ok {
+				continue
+			}
+			g := call.Call.StaticCallee()
+			if g == nil || !c.freshFunc(g) || scaleBusy[g] {
+				continue
+			}
+			if scaleBusy == nil {
+				scaleBusy = map[*ssa.Function]bool{}
+			}
+			scaleBusy[g] = true
+			gs, gi := scaleValues(c, g)
+			delete(scaleBusy, g)
+			nres := g.Signature.Results().Len()
+			for ri := 0; ri < nres; ri++ {
+				allS, allI, rets := true, true, 0
+				for _, gb := range g.Blocks {
+					if len(gb.Instrs) == 0 {
+						continue
+					}
+					if r, ok := gb.Instrs[len(gb.Instrs)-1].(*ssa.Return); ok && ri < len(r.Results) {
+						rets++
+						if !containsVal(gs, r.Results[ri]) {
+							allS = false
+						}
+						if !containsVal(gi, r.Results[ri]) {
+							allI = false
+						}
+					}
+				}
+				if rets == 0 || (!allS && !allI) {
+					continue
+				}
+				var vals []ssa.Value
+				if nres == 1 {
+					vals = []ssa.Value{call}
+				} else {
+					for _, ref := range *call.Referrers() {
+						if ex, ok := ref.(*ssa.Extract); ok && ex.Index == ri {
+							vals = append(vals, ex)
+						}
+					}
+				}
+				if allS {
+					scale = append(scale, vals...)
+				}
+				if allI {
+					inv = append(inv, vals...)
+				}
+			}
+		}
+	}
+	// 1/scale of a scale found above
+	for _, b := range f.Blocks {
+		for _, in := range b.Instrs {
+			if q, ok := in.(*ssa.BinOp); ok && q.Op == token.QUO && !containsVal(inv, q) {
+				if k, ok := constFloat(q.X); ok && k == 1 && containsVal(scale, q.Y) {
+					inv = append(inv, q)
+				}
+			}
+		}
+	}
 	// a helper the reference record does not know: a float parameter that receives the scale (1/scale) at EVERY
 	// call site is the scale (1/scale) inside the helper
 	if c.freshFunc(f) && !scaleBusy[f] {
@@ -266,12 +333,44 @@ func containsVal(vs []ssa.Value, v ssa.Value) bool {
 }
 
 // precisionLeaves walks phis from the value converted for math.Pow and classifies the leaves.
+// leafCtx / leafSubst: precisionLeaves reads a helper the reference record does not know (loop-free, one result)
+// through: its parameters stand for the call's arguments.
+var leafCtx *Ctx
+var leafSubst = map[*ssa.Parameter]ssa.Value{}
+
 func precisionLeaves(v ssa.Value, seen map[ssa.Value]bool, leaves *[]string, variadic *bool) {
+	if p, ok := v.(*ssa.Parameter); ok {
+		if a, ok := leafSubst[p]; ok {
+			precisionLeaves(a, seen, leaves, variadic)
+			return
+		}
+	}
 	if seen[v] {
 		return
 	}
 	seen[v] = true
 	switch x := v.(type) {
+	case *ssa.Call:
+		if g := x.Call.StaticCallee(); g != nil && leafCtx != nil && leafCtx.freshFunc(g) && loopFree(g) && g.Signature.Results().Len() == 1 {
+			for i, gp := range g.Params {
+				if i < len(x.Call.Args) {
+					leafSubst[gp] = x.Call.Args[i]
+				}
+			}
+			for _, b := range g.Blocks {
+				if len(b.Instrs) == 0 {
+					continue
+				}
+				if r, ok := b.Instrs[len(b.Instrs)-1].(*ssa.Return); ok && len(r.Results) == 1 {
+					precisionLeaves(r.Results[0], seen, leaves, variadic)
+				}
+			}
+			for _, gp := range g.Params {
+				delete(leafSubst, gp)
+			}
+			return
+		}
+		*leaves = append(*leaves, "other:"+v.String())
 	case *ssa.Phi:
 		for _, e := range x.Edges {
 			precisionLeaves(e, seen, leaves, variadic)
@@ -284,7 +383,13 @@ func precisionLeaves(v ssa.Value, seen map[ssa.Value]bool, leaves *[]string, var
 		if x.Op == token.MUL {
 			switch a := x.X.(type) {
 			case *ssa.IndexAddr:
-				if p, ok := a.X.(*ssa.Parameter); ok {
+				ax := a.X
+				if hp, ok := ax.(*ssa.Parameter); ok {
+					if sub, ok := leafSubst[hp]; ok {
+						ax = sub
+					}
+				}
+				if p, ok := ax.(*ssa.Parameter); ok {
 					if k, ok := a.Index.(*ssa.Const); ok && k.Int64() == 0 {
 						*variadic = true
 						*leaves = append(*leaves, "variadic:"+p.Name()+"[0]")
@@ -466,6 +571,7 @@ func ruleScale(rule string) func(*Ctx) {
 			P := conv.X
 			var leaves []string
 			variadic := false
+			leafCtx = c
 			precisionLeaves(P, map[ssa.Value]bool{}, &leaves, &variadic)
 			sort.Strings(leaves)
 			bad := ""
@@ -502,6 +608,87 @@ func ruleScale(rule string) func(*Ctx) {
 		cp := c.fn("checkPrecision")
 		c.check(inlineRangePanic(c, cp, cp.Params[0]), rule+".prec", rule+".prec:checkPrecision:body", cp.Pos(), "checkPrecision",
 			"panics with ErrPrecisionRange exactly when p < -8 || p > 8", "checkPrecision no longer tests p < -8 || p > 8 -> panic(ErrPrecisionRange)", "all D entry points delegate the range check to it")
+		// a precision read from the option struct is read AFTER the options were applied: no call through a function
+		// value that receives the struct is reachable from the load that feeds 10^p
+		for _, f := range c.srcFuncs() {
+			for _, pw := range powCalls(c, f) {
+				if len(pw.Call.Args) != 2 {
+					continue
+				}
+				var ld *ssa.UnOp
+				v := pw.Call.Args[1]
+				for k := 0; k < 4 && ld == nil; k++ {
+					switch x := v.(type) {
+					case *ssa.Convert:
+						v = x.X
+					case *ssa.UnOp:
+						if fa, ok := x.X.(*ssa.FieldAddr); ok && x.Op == token.MUL && typeName(fa.X.Type()) == "*inflateConfig" && fieldName(fa.X.Type(), fa.Field) == "precision" {
+							ld = x
+						}
+						k = 4
+					default:
+						k = 4
+					}
+				}
+				appliesOptions := false // f hands the option struct to option functions (calls through function values)
+				for _, ci := range calls(f) {
+					if ci.Common().StaticCallee() != nil || ci.Common().IsInvoke() {
+						continue
+					}
+					if _, isBuiltin := ci.Common().Value.(*ssa.Builtin); isBuiltin {
+						continue
+					}
+					for _, a := range ci.Common().Args {
+						if typeName(a.Type()) == "*inflateConfig" {
+							appliesOptions = true
+						}
+					}
+				}
+				if ld == nil {
+					if appliesOptions {
+						c.fail(rule+".prec", fmt.Sprintf("%s.prec:%s:after-options", rule, c.fname(f)), pw.Pos(), c.fname(f),
+							"10^p is computed from "+exprOf(pw.Call.Args[1])+" in a function that applies the caller's options to the option struct, not from the struct's precision afterwards: WithPrecision(p) is range-checked but the paths are scaled with the default",
+							"the D result must be the 64-bit result on input quantised with THIS call's precision")
+					}
+					continue
+				}
+				bad := ""
+				// forward reachability from the load
+				seen := map[*ssa.BasicBlock]bool{}
+				type pos struct {
+					b *ssa.BasicBlock
+					i int
+				}
+				work := []pos{{ld.Block(), instrIndex(ld) + 1}}
+				for len(work) > 0 && bad == "" {
+					p := work[len(work)-1]
+					work = work[:len(work)-1]
+					for j := p.i; j < len(p.b.Instrs); j++ {
+						ci, ok := p.b.Instrs[j].(ssa.CallInstruction)
+						if !ok || ci.Common().StaticCallee() != nil || ci.Common().IsInvoke() {
+							continue
+						}
+						if _, isBuiltin := ci.Common().Value.(*ssa.Builtin); isBuiltin {
+							continue
+						}
+						for _, a := range ci.Common().Args {
+							if typeName(a.Type()) == "*inflateConfig" {
+								bad = "the precision that feeds 10^p is read at " + c.pos(ld.Pos()) + " BEFORE the options are applied (" + c.pos(ci.Pos()) + "): WithPrecision(p) is range-checked but the paths are scaled with the default"
+							}
+						}
+					}
+					for _, sb := range p.b.Succs {
+						if !seen[sb] {
+							seen[sb] = true
+							work = append(work, pos{sb, 0})
+						}
+					}
+				}
+				c.check(bad == "", rule+".prec", fmt.Sprintf("%s.prec:%s:after-options", rule, c.fname(f)), pw.Pos(), c.fname(f),
+					"the option struct's precision is read after every option has been applied", bad,
+					"the D result must be the 64-bit result on input quantised with THIS call's precision")
+			}
+		}
 		// field-configured precision (InflatePathsD): the default stored in the config literal must be 2
 		for _, f := range entries {
 			for _, b := range f.Blocks {
@@ -554,7 +741,33 @@ func ruleScale(rule string) func(*Ctx) {
 					return absVal{}, false
 				}}
 			outs := ex.explore(nil)
-			isScale := func(e string) bool { return strings.Contains(e, "math.Pow(10") }
+			// a scale is 10^p written out, or the result of a helper that SCALE found to be that helper's own scale
+			type scaleRes struct {
+				fn  string
+				idx int
+			}
+			var helperScales []scaleRes
+			fsc, _ := scaleValues(c, f)
+			for _, sv := range fsc {
+				if exv, ok := sv.(*ssa.Extract); ok {
+					if call, ok := exv.Tuple.(*ssa.Call); ok && call.Call.StaticCallee() != nil {
+						helperScales = append(helperScales, scaleRes{c.fname(call.Call.StaticCallee()), exv.Index})
+					}
+				} else if call, ok := sv.(*ssa.Call); ok && call.Call.StaticCallee() != nil && c.freshFunc(call.Call.StaticCallee()) {
+					helperScales = append(helperScales, scaleRes{c.fname(call.Call.StaticCallee()), -1})
+				}
+			}
+			isScale := func(e string) bool {
+				if strings.Contains(e, "math.Pow(10") {
+					return true
+				}
+				for _, hs := range helperScales {
+					if strings.HasPrefix(e, hs.fn+"(") && (hs.idx < 0 || strings.HasSuffix(e, fmt.Sprintf(")#%d", hs.idx))) {
+						return true
+					}
+				}
+				return false
+			}
 			prod := func(e, operand string) bool { // e is operand*scale or scale*operand
 				e = strings.TrimSuffix(strings.TrimPrefix(e, "("), ")")
 				for _, sep := range []string{" * "} {
